@@ -11,6 +11,7 @@ fragmentation is property C11.
 -/
 import MpcVerif.Proofs.Proto2
 import MpcVerif.Proofs.Proto2Int
+import MpcVerif.Model.Proto2Route
 import MpcVerif.Props.C01
 
 namespace Mpc
@@ -227,5 +228,78 @@ example : exampleCircuit2.expectedInt [(2, -1)] [(1, -1)] = exampleCircuit2.expe
 example : (-5 : Int) % 2 ^ 8 = 251 % 2 ^ 8 := by decide
 example : bitsOfInt 3 (-5) = [true, true, false] ∧ bitsOfInt 3 1003 = [true, true, false] := by decide
 example : packArg [(4, -1), (5, 3)] = 63 ∧ argWidth [(4, (-1 : Int)), (5, 3)] = 9 := by decide
+
+/-! ## Circuit construction routes: "for every two-party circuit" means every circuit VALUE
+
+A `*circuit.Circuit` carries derived data (`Stats`, `Gate.Level`) besides the
+fields that define `f`.  The model's `Circuit2` has NO such field — that is the
+reason `C02_both_get_f` covers a circuit however it was constructed.  The
+theorems below say so about `GoCircuit` (defining fields + derived data) and
+`run2Go`; that the real `Garbler` / `Evaluator` read the defining fields only
+is the DOCUMENTED ASSUMPTION behind `run2Go`, tied on every run by the harness'
+route dimension (every session class x {exact, zero, stale, parsed, appended,
+levels}; op `c02 rt <route> <Stats> ...`; obligations that every route ran). -/
+
+/-- **C02 for every circuit value.**  Whatever the derived fields of the circuit
+value hold (zero, exact, stale, levels assigned), both parties return the plain
+evaluation of the circuit its defining fields describe. -/
+theorem C02_both_get_f_every_circuit_value [DecidableEq L] (gc : GoCircuit) (hwf : gc.core.WF = true)
+    (mkH : List UInt8 → Hash L) (key : List UInt8) (r : L) (hr : sbit r = true) (inl : Nat → L)
+    (x y : List Bool) (hx : x.length = gc.core.n0) (ot : OtFun L) (hot : OtSpec ot) :
+    run2Go gc mkH key r inl x y ot = .ok (gc.core.expected x y, gc.core.expected x y) :=
+  C02_both_get_f gc.core hwf mkH key r hr inl x y hx ot hot
+
+/-- Two circuit values with the same defining fields run the same session,
+error branches included: the derived data is not an input of the protocol. -/
+theorem C02_session_independent_of_derived_data [DecidableEq L] (gc gc' : GoCircuit) (h : gc.core = gc'.core)
+    (mkH : List UInt8 → Hash L) (key : List UInt8) (r : L) (inl : Nat → L) (x y : List Bool) (ot : OtFun L) :
+    run2Go gc mkH key r inl x y ot = run2Go gc' mkH key r inl x y ot := by
+  simp [run2Go, h]
+
+/-- The defining fields a route yields: the given ones, except that `appended`
+yields the edited gate list on the extended wire range. -/
+def Route.coreOf : Route → Circuit2 → Circuit2
+  | .appended gs, p => p.append gs
+  | _, p => p
+
+theorem C02_route_defining_fields (rt : Route) (p : Circuit2) : (rt.construct p).core = rt.coreOf p := by
+  cases rt <;> rfl
+
+/-- **C02 along every construction route.**  For every route and every defining
+fields `p` such that the constructed circuit is well formed, both parties return
+the plain evaluation of the CONSTRUCTED circuit (for `appended`: of the edited
+gate list), although the `Stats` the value carries are those of `p`, of another
+circuit, or zero. -/
+theorem C02_both_get_f_every_route [DecidableEq L] (rt : Route) (p : Circuit2)
+    (hwf : (rt.coreOf p).WF = true)
+    (mkH : List UInt8 → Hash L) (key : List UInt8) (r : L) (hr : sbit r = true) (inl : Nat → L)
+    (x y : List Bool) (hx : x.length = p.n0) (ot : OtFun L) (hot : OtSpec ot) :
+    run2Go (rt.construct p) mkH key r inl x y ot = .ok ((rt.coreOf p).expected x y, (rt.coreOf p).expected x y) := by
+  have hc := C02_route_defining_fields rt p
+  have hn0 : (rt.coreOf p).n0 = p.n0 := by cases rt <;> rfl
+  have := C02_both_get_f_every_circuit_value (rt.construct p) (by rw [hc]; exact hwf) mkH key r hr inl x y
+    (by rw [hc, hn0]; exact hx) ot hot
+  rw [this, hc]
+
+/-- Non-vacuity of the route dimension: the statistics a value carries and the
+rows its gate list makes the garbler transmit really differ along the routes
+(a struct literal claims 0 rows where 6 are sent; an appended OR gate adds 3 rows
+the parser never counted), and the edited circuit is a different function. -/
+theorem C02_routes_carry_wrong_statistics :
+    rowsNeeded exampleCircuit2.c.gates = 6 ∧
+    (Route.zero.construct exampleCircuit2).derived.stats = [] ∧
+    (Route.exact.construct exampleCircuit2).derived.stats = [1, 0, 1, 1, 1, 0, 0, 0] ∧
+    ((Route.appended [⟨.or, 5, 6, 7⟩]).construct exampleCircuit2).derived.stats = [1, 0, 1, 1, 1, 0, 0, 0] ∧
+    rowsNeeded ((Route.appended [⟨.or, 5, 6, 7⟩]).construct exampleCircuit2).core.c.gates = 9 ∧
+    ((Route.appended [⟨.or, 5, 6, 7⟩]).coreOf exampleCircuit2).WF = true ∧
+    ((Route.appended [⟨.or, 5, 6, 7⟩]).coreOf exampleCircuit2).expected [true, false] [true] = [1, 2] := by
+  refine ⟨by decide, by decide, by decide, by decide, by decide, by decide, by decide +kernel⟩
+
+example : (Route.zero.coreOf exampleCircuit2).WF = true := by decide
+example : (Route.stale { stats := [9, 9, 0, 0, 0, 0, 0, 0] }).coreOf exampleCircuit2 = exampleCircuit2 := rfl
+example : ({ core := exampleCircuit2 } : GoCircuit).core.WF = true := by decide
+example : ({ core := exampleCircuit2, derived := { stats := [1] } } : GoCircuit).core =
+    ({ core := exampleCircuit2 } : GoCircuit).core := rfl
+example : [true, false].length = exampleCircuit2.n0 := by decide
 
 end Mpc
